@@ -162,6 +162,7 @@ type QCfg struct {
 	NoDecScaleCompare bool // both operands of a DECIMAL comparison have scale 2
 	NoNullArith       bool // a NULL literal is never an arithmetic operand (typed DOUBLE by this engine: float territory)
 	NoOnNullableInner bool // after a LEFT JOIN, the ON of a later INNER JOIN does not reference the LEFT JOIN's right table
+	NoRangeJoinOn     bool // an ON condition never has x BETWEEN <column> AND <column> (range-heap join shape)
 	NoInnerAfterOuter bool // join chains have the shape [RIGHT] (INNER|CROSS)* (LEFT)*: no inner/cross/right join after an outer join
 }
 
@@ -188,6 +189,7 @@ type Gen struct {
 	// subLevel > 0 while a subquery block is generated: no SUM over DECIMAL there (this engine types SUM
 	// DOUBLE; DECIMAL vs DOUBLE comparisons belong to the hash-equality finding)
 	subLevel int
+	inOn     bool // an ON condition is being generated
 }
 
 // NewGen makes a query generator.
@@ -550,7 +552,10 @@ func (g *Gen) between(c *gctx) *Expr {
 			lo = g.col(c, TInt)
 		}
 		if g.pct(30) {
-			hi = g.col(c, TInt)
+			h := g.col(c, TInt)
+			if !(g.inOn && g.cfg.NoRangeJoinOn && lo.Op == "col") {
+				hi = h
+			}
 		}
 		e.Args = []*Expr{g.nonLit(xc, g.num(xc, TInt, 1)), lo, hi}
 	case x < 8:
@@ -832,6 +837,8 @@ func (g *Gen) onEq(c *gctx) *Expr {
 
 // onPred: mostly an equality between a column of the newly joined table and an earlier one.
 func (g *Gen) onPred(c *gctx) *Expr {
+	g.inOn = true
+	defer func() { g.inOn = false }()
 	nc := &gctx{local: c.local[len(c.local)-1:], depth: 0}
 	oc := &gctx{local: c.local[:len(c.local)-1], depth: 0}
 	full := &gctx{local: c.local, outer: c.outer, depth: 0, corrPct: 10}
